@@ -25,6 +25,7 @@ RULE = (
     "dissipation when sliding, no kinetic-energy increase. distinct = (solver, per-contact mode strings over "
     "{open, impact, contact-stick, contact-slip}, run-length compressed and capped); non-trivial = at least one closed contact step"
 )
+RULE += " Ground planes may be moved explicitly in time (shaking / tilting, up to accelerations above g so that resting spheres are thrown off); Moreau sessions may have all masses rescaled by 1e-8..1e3 (all percussion tolerances are relative to the scene's own scale); sphere-plane contacts may have tangential restitution e_F (the slip of the friction clauses is the restituted slip)."
 COMPONENTS = {
     "real": ["Moreau", "Rattle", "BackwardEuler", "DualStormerVerlet", "Sphere2Plane", "Sphere2Sphere", "prox functions", "System"],
     "stub": ["tqdm -> SimProgress", "Moreau.step / DSV fixed_point_iteration wrapped only to record the midpoint configuration"],
@@ -60,7 +61,7 @@ def gen(rng, tier, index):
         n0 = rot.quat_to_mat(ground["p"])[:, 2]
         ground["motion"] = {
             "amp": (n0 * float(rng.uniform(0.01, 0.06)) + rng.normal(size=3) * float(rng.choice([0.0, 0.03]))).tolist(),
-            "w": float(rng.uniform(3, 12)),
+            "w": float(rng.uniform(3, 25)),  # up to amp * w^2 > g: resting spheres are thrown off the floor
             "axis": rng.normal(size=3).tolist(),
             "alpha": float(rng.choice([0.0, rng.uniform(0.02, 0.15)])),
             "phase": float(np.pi / 2) if rng.random() < 0.8 else 0.0,  # mostly starting from rest (resting spheres stay consistent)
